@@ -36,6 +36,7 @@ type mItemObs struct {
 	NotExpr string // why it cannot be expressed (not injected)
 	Proto   bool
 	Control bool // C08: the unmutated proposal is acceptable in the victim's situation
+	Neutral bool // C08: no expectation about the handler (the statement does not decide this case)
 	Mut     bool
 	Cat     string
 	// C07
@@ -83,7 +84,9 @@ func msgsExec(mode msgsMode) func(t *testing.T, ssc schedrun.Scenario, o vsched.
 		ptFull, sender, names := splitCase(ssc.Name)
 		pt, variant, _ := strings.Cut(ptFull, "~")
 		obs := &msgsObs{Pt: pt, Sender: sender, Msg: names, Inflight: variant == "inflight", Stage: "setup"}
-		sequential := variant == "seq"
+		// "~seq": the messages are delivered 60 s apart; "~gap": 11 s apart (just longer than the 10 s
+		// the client waits for a matching funding / settlement proposal)
+		gap := map[string]time.Duration{"seq": 60 * time.Second, "gap": 11 * time.Second}[variant]
 		cases := lookupCases(sender, names)
 		s := vsched.Run(t, o, func() {
 			n := 2
@@ -140,6 +143,7 @@ func msgsExec(mode msgsMode) func(t *testing.T, ssc schedrun.Scenario, o vsched.
 				if c.Control != nil {
 					it.Control = c.Control(sc)
 				}
+				it.Neutral = c.Neutral && it.Control
 				msg := c.Build(sc)
 				if msg == nil {
 					it.NA = true
@@ -163,8 +167,8 @@ func msgsExec(mode msgsMode) func(t *testing.T, ssc schedrun.Scenario, o vsched.
 			injectAll := func() {
 				for i := range cases {
 					injectOne(i)
-					if sequential && i+1 < len(cases) {
-						vsched.Sleep(60 * time.Second)
+					if gap > 0 && i+1 < len(cases) {
+						vsched.Sleep(gap)
 					}
 				}
 			}
@@ -533,6 +537,15 @@ type msgsPlan struct {
 	// thorough tier only: further history points with their own families
 	ThoroughPoints []string
 	ThoroughCats   map[string]bool
+	// Gap families: at Point, every listed message alone and (quick) the same message twice resp.
+	// (thorough) all ordered pairs, delivered 11 s apart
+	GapQuick    []gapFamily
+	GapThorough []gapFamily
+}
+
+type gapFamily struct {
+	Point string
+	Names []string // sender M
 }
 
 func msgsScenarios(mode msgsMode, plan msgsPlan) func(res *report.Result) []schedrun.Scenario {
@@ -549,11 +562,26 @@ func msgsScenarios(mode msgsMode, plan msgsPlan) func(res *report.Result) []sche
 				out = append(out, schedrun.Scenario{Name: pt + "/" + c.Sender + "/" + c.Name, Mode: explore.Delay, Bound: 0, MaxSteps: 400000, Weight: 1})
 			}
 		}
+		for _, g := range plan.GapQuick {
+			for _, n := range g.Names {
+				out = append(out, schedrun.Scenario{Name: g.Point + "/M/" + n, Mode: explore.Delay, Bound: 0, MaxSteps: 400000, Weight: 3},
+					schedrun.Scenario{Name: g.Point + "~gap/M/" + n + "+" + n, Mode: explore.Delay, Bound: 0, MaxSteps: 400000, Weight: 3})
+			}
+		}
 		if res.Thorough() {
+			for _, g := range plan.GapThorough {
+				for _, a := range g.Names {
+					for _, b := range g.Names {
+						if q := g.Point + "~gap/M/" + a + "+" + b; !hasScenario(out, q) {
+							out = append(out, schedrun.Scenario{Name: q, Mode: explore.Delay, Bound: 0, MaxSteps: 400000, Weight: 3})
+						}
+					}
+				}
+			}
 			for _, pt := range plan.ThoroughPoints {
 				for i := range all {
 					c := &all[i]
-					if plan.ThoroughCats[c.Cat] && c.applies(pt) {
+					if plan.ThoroughCats[c.Cat] && c.applies(pt) && !hasScenario(out, pt+"/"+c.Sender+"/"+c.Name) {
 						out = append(out, schedrun.Scenario{Name: pt + "/" + c.Sender + "/" + c.Name, Mode: explore.Delay, Bound: 0, MaxSteps: 400000, Weight: 3})
 					}
 				}
@@ -587,6 +615,15 @@ func msgsScenarios(mode msgsMode, plan msgsPlan) func(res *report.Result) []sche
 		}
 		return out
 	}
+}
+
+func hasScenario(scs []schedrun.Scenario, name string) bool {
+	for _, s := range scs {
+		if s.Name == name {
+			return true
+		}
+	}
+	return false
 }
 
 // msgsDigest is the canonical outcome; it also bumps the per-execution counters (schedrun calls
@@ -625,6 +662,13 @@ func msgsDigest(mode msgsMode) func(schedrun.Scenario, *vsched.Sched, any) strin
 			for _, it := range obs.Items {
 				if !it.Mut && it.Control && it.NotExpr == "" && obs.PropsAfter == obs.PropsBefore+1 && obs.Stage == "done" {
 					msgsCount("positive_controls_ok", 1)
+				}
+				if it.Neutral && it.NotExpr == "" && obs.Stage == "done" {
+					if obs.PropsAfter > obs.PropsBefore {
+						msgsCount("undecided_by_statement_delivered", 1)
+					} else {
+						msgsCount("undecided_by_statement_dropped", 1)
+					}
 				}
 			}
 		case "C07":
